@@ -18,7 +18,10 @@ Decided by folding and symbolic interpretation of the repository source (nothing
         a block starts at every leader and after every branching instruction, blocks are contiguous
         (start = offset of first instruction, end = start + sum of lengths), every instruction is
         pushed exactly once in order, counts are right, and no empty block remains.  determineNext must
-        be called with the instruction's own (instruction, offset, method).
+        be called with the instruction's own (instruction, offset, method).  In further scenarios the exception table is not
+        opaque: `determineException` and `EncodedCatchHandler` are interpreted over a generic code item (two try ranges sharing
+        one handler list, typed + catch-all handlers, signed sizes) and every try start / typed handler address / catch-all
+        address of that *encoding* must begin a block.
 """
 from __future__ import annotations
 
@@ -133,16 +136,26 @@ def check_push(sink, repo, folder, bb_cls):
                    detail="end == start + sum(get_length()), count == number of pushes" if cat == "end" else "")
 
 
+# scenarios with an *interpreted* try/catch table: (opcodes, (tries, handler sizes, try -> handler list))
+XT_QUICK = [((0x00, 0x00), (2, (-1,), (0, 0))),      # two try ranges share one handler list: one typed pair + catch-all
+            ((0x00, 0x32), (1, (1,), (0,)))]          # one try, one typed handler, no catch-all
+XT_THOROUGH = [((0x00, 0x00), (2, (1, 0), (0, 1))), ((0x00, 0x00, 0x00), (2, (-2,), (0, 0))), ((0x32, 0x00), (3, (2, 0), (1, 0, 1)))]
+
+
 def check_partition(sink, repo, folder, ma_cls, dn, de, basic, scen):
     cbb = ma_cls.lookup("_create_basic_block")
     pending = None
     n_failed = 0
-    for ops in scen:
-        paths = [p for p in fm.run_block_model(repo, folder, ma_cls, dn, de, basic, ops) if p.entered]
+    for entry in scen:
+        ops, xt = entry if (len(entry) == 2 and isinstance(entry[0], tuple)) else (entry, None)
+        paths = [p for p in fm.run_block_model(repo, folder, ma_cls, dn, de, basic, ops, exc_table=xt,
+                                                   max_paths=6000 if xt is None else 400) if p.entered]
         if not paths:
             raise AnalysisError("MethodAnalysis.__init__ never reaches _create_basic_block in the model")
         sink.count("partition_paths", len(paths))
         label = "ops=(%s)" % ", ".join("0x%02x" % o for o in ops)
+        if xt is not None:
+            label += " tries=%d handler-sizes=%s try->handler=%s" % (xt[0], list(xt[1]), list(xt[2]))
         seen = {}
         foreign_only = None
         for p in paths:
@@ -170,14 +183,24 @@ def check_partition(sink, repo, folder, ma_cls, dn, de, basic, scen):
             pending = pending or foreign_only
             sink.count("partition_scenarios")
             continue
-        n_failed += len(seen)
+        if xt is None:
+            n_failed += len(seen)
+        else:
+            n_failed_xt = len(seen)
         for cat, (msg, node) in seen.items():
-            sink.check("partition/" + cat, label + " " + cat, False, cbb, "blocks: " + cat, msg, node=node)
+            where = cbb
+            if xt is not None and not n_failed and node is None:
+                # the opaque-table scenarios agree with the specification, so _create_basic_block handles a correct table
+                # correctly: the table it was given by the interpreted determineException/EncodedCatchHandler is what deviates
+                where = de
+                msg += " -- determineException / EncodedCatchHandler are interpreted in this scenario and report a table that " \
+                       "lacks this entry of the encoding (partition with an opaque, correct table is as specified)"
+            sink.check("partition/" + cat, label + " " + cat, False, where, "blocks: " + cat, msg, node=node)
         if not seen:
             sink.check("partition", label, True, cbb, "", "",
                        detail="%d combinations of leader facts: block list == specification partition (starts, ends, counts, order)" % len(paths))
         sink.count("partition_scenarios")
-    if pending and not n_failed:
+    if pending and not n_failed and not locals().get("n_failed_xt"):
         raise AnalysisError("_create_basic_block decides block boundaries on a fact outside the model: %s" % (pending,))
 
 
@@ -210,7 +233,12 @@ def run(ctx):
     ctx.floor("payload_classes", 2)
     check_push(ctx, repo, folder, bb_cls)
     ctx.floor("push_scenarios", 3)
-    scen = QUICK_SCEN + (THOROUGH_EXTRA if ctx.tier == "thorough" else [])
+    scen = QUICK_SCEN + XT_QUICK + (THOROUGH_EXTRA + XT_THOROUGH if ctx.tier == "thorough" else [])
+    ech = dx.classes.get("EncodedCatchHandler")
+    ctx.analysed(de)
+    for g in ("__init__", "get_size", "get_handlers", "get_catch_all_addr", "get_off"):
+        if ech is not None and ech.lookup(g) is not None:
+            ctx.analysed(ech.lookup(g))
     check_partition(ctx, repo, folder, ma_cls, dn, de, basic, scen)
     ctx.floor("partition_scenarios", len(scen))
     ctx.floor("partition_paths", len(scen))
